@@ -135,9 +135,8 @@ namespace chaiscript {
 
           for (size_t i = 0; i < num_children; ++i) {
             const auto &child = *node->children[i];
-            if ((child.identifier != AST_Node_Type::Id && child.identifier != AST_Node_Type::Constant
-                 && child.identifier != AST_Node_Type::Noop)
-                || i == num_children - 1) {
+            // an Id is not dead code: evaluating a name that does not exist is an error
+            if ((child.identifier != AST_Node_Type::Constant && child.identifier != AST_Node_Type::Noop) || i == num_children - 1) {
               keepers.push_back(i);
             }
           }
